@@ -371,7 +371,7 @@ pub fn worker(def: &CheckDef, a: &WorkerArgs) -> i32 {
                     vj.set("path", J::s(&path));
                     vj.set("config", J::Obj(m.cfg.iter().map(|(k, v)| (k.clone(), J::Int(*v))).collect()));
                     viols.push(vj);
-                    if viols.len() >= 4 {
+                    if viols.len() >= 2 {
                         break 'outer;
                     }
                 }
